@@ -399,8 +399,15 @@ class Antecedent:
             raise SyntaxError(f"unable to parse the following expressions: {errors}")
 
         # the postfix notation forgets where the logical operators were: in the (infix) text,
+        # a logical operator has an operand on either side within its parentheses
+        tokens = Function.format_infix(self.text).split()
+        for previous, token in zip(tokens, tokens[1:]):
+            if previous == "(" and token in {Rule.AND, Rule.OR}:
+                raise SyntaxError(f"expected variable, but found logical operator '{token}'")
+            if previous in {Rule.AND, Rule.OR} and token == ")":
+                raise SyntaxError(f"logical operator '{previous}' expects 2 operands, but found 1")
         # every proposition but the first must be preceded by exactly one logical operator
-        infix = [t for t in Function.format_infix(self.text).split() if t not in {"(", ")"}]
+        infix = [t for t in tokens if t not in {"(", ")"}]
         index = 0
         for position, length in enumerate(lengths):
             if position > 0:
